@@ -173,7 +173,56 @@ class Prop(common.PropertyCheck):
         for i, dim in enumerate((0.6, 1.0, 0.8)):
             yield dict(base_case, K=8, sizes=[500] * 8, ratio=3.0, nch=2, dim=dim, clust='first', seed=2000 + i)
 
+        # the selection rule on its own: subpopulations anywhere between (and piled up at) the range limits of a one-channel sample
+        for i in range(self.budget(40, 400)):
+            yield {'k': 'selection', 'seed': rng.randrange(1 << 30), 'npop': rng.randrange(1, 9), 'range': rng.choice([1024, 4096, 262144])}
+
+    def run_selection(self, case):
+        import inspect, struct
+        r = np.random.RandomState(case['seed'] % (1 << 31))
+        R = case['range']
+        pops_vals = []
+        for j in range(case['npop']):
+            kind = r.choice(['inside', 'inside', 'low_pile', 'high_pile', 'near_low', 'near_high', 'wide'])
+            n = int(r.choice([1, 5, 60]))
+            if kind == 'low_pile':
+                v = np.zeros(n)
+            elif kind == 'high_pile':
+                v = np.full(n, float(R - 1))
+            elif kind == 'near_low':
+                v = np.abs(r.normal(0.02 * R, 0.01 * R, size=n))
+            elif kind == 'near_high':
+                v = np.minimum(r.normal(0.975 * R, 0.01 * R, size=n), R - 1)
+            elif kind == 'wide':
+                v = r.uniform(0, R - 1, size=n)
+            else:
+                v = r.normal(r.uniform(0.1, 0.9) * R, r.uniform(0.001, 0.05) * R, size=n).clip(0, R - 1)
+            pops_vals.append(np.asarray(v, dtype=np.float32))
+        allv = np.concatenate(pops_vals)
+        spec = {'version': 'FCS3.0', 'delim': '/', 'datatype': 'F', 'byteord': '1,2,3,4', 'widths': [32], 'ranges': [R],
+                'events': [[struct.unpack('<I', struct.pack('<f', float(x)))[0]] for x in allv], 'names': ['FL1'], 'pne': {'1': '0,0'}}
+        d, _ = samples.load(spec, name='c02_sel.fcs')
+        pops, k = [], 0
+        for v in pops_vals:
+            pops.append(d[k:k + len(v), 0]); k += len(v)
+        sig = inspect.signature(FlowCal.mef.selection_std).parameters
+        nl, nh = float(sig['n_std_low'].default), float(sig['n_std_high'].default)
+        try:
+            mask = [bool(x) for x in FlowCal.mef.selection_std(pops, scale='linear')]
+        except Exception as e:
+            return {'err': type(e).__name__ + ':' + str(e)[:80]}
+        stats = []
+        for v in pops_vals:
+            v64 = np.asarray(v, dtype=np.float64)
+            # the library reduces the single-precision events in single precision; both evaluations are recorded
+            stats.append([float(np.mean(v)), float(max(np.std(v), 0.005)), float(np.mean(v64)), float(max(np.std(v64), 0.005))])
+        lim = [float(x) for x in d.range(0)]
+        return {'mask': mask, 'stats': stats, 's0': lim[0], 's1': lim[1], 'nl': nl, 'nh': nh,
+                'piled': [bool(np.all(v == 0) or np.all(v == R - 1)) for v in pops_vals]}
+
     def run_impl(self, case):
+        if case.get('k') == 'selection':
+            return self.run_selection(case)
         try:
             d, tr = make_beads(case)
         except Exception as e:
@@ -314,7 +363,28 @@ class Prop(common.PropertyCheck):
         except Exception:
             return {'open': []}
 
+    def oracle_selection(self, case, impl):
+        if 'err' in impl:
+            return 'selection_std raised %s' % impl['err']
+        s0, s1, nl, nh = impl['s0'], impl['s1'], impl['nl'], impl['nh']
+        lo, hi = s0 + 0.015 * (s1 - s0), s0 + 0.985 * (s1 - s0)
+        for j, (got, st, piled) in enumerate(zip(impl['mask'], impl['stats'], impl['piled'])):
+            if piled and got:
+                return 'subpopulation %d has all its events at a range limit (%s) but was selected' % (j, st[:2])
+            verdicts = set()
+            for mean, sd in ((st[0], st[1]), (st[2], st[3])):
+                a, b = mean - nl * sd - lo, hi - (mean + nh * sd)
+                if min(abs(a), abs(b)) < 1e-6 * (s1 - s0):
+                    verdicts |= {True, False}          # on a threshold to within rounding: either verdict
+                verdicts.add(a > 0 and b > 0)
+            if got not in verdicts:
+                return 'subpopulation %d (mean %r, std %r) of a sample with range [%r, %r]: selected=%s, the documented rule (1.5%% inside the limits, %g / %g standard deviations) says %s' % (
+                    j, st[2], st[3], s0, s1, got, nl, nh, sorted(verdicts))
+        return None
+
     def oracle(self, case, impl):
+        if case.get('k') == 'selection':
+            return self.oracle_selection(case, impl)
         if 'harness_err' in impl:
             return 'harness: ' + impl['harness_err']
         tag = 'sizes=%s K=%d nch=%d blank=%s sat=%s unknown=%s order=%s seed=%d' % (case['sizes'], case['K'], case['nch'], case['blank'], case['saturate'], case['unknown'], case.get('order'), case['seed'])
@@ -373,6 +443,11 @@ class Prop(common.PropertyCheck):
         return case.get('stream') == sig.get('stream') and case.get('idx') == sig.get('idx') and case.get('seed') == sig.get('seed')
 
     def model_request(self, case, impl):
+        if case.get('k') == 'selection':
+            if 'err' in impl:
+                return None
+            return {'op': 'selection', 's0': bits(impl['s0']), 's1': bits(impl['s1']), 'nlow': bits(impl['nl']), 'nhigh': bits(impl['nh']),
+                    'pops': [[bits(st[2]), bits(st[3])] for st in impl['stats']]}
         if 'inj' not in impl:
             return None
         return {'op': 'select_pairs', 'stats': impl['inj']['stats'][0], 'mef': impl['mef_values'][0], 'sel': impl['exp_sel'][0]}
@@ -380,6 +455,13 @@ class Prop(common.PropertyCheck):
     def compare(self, case, impl, model):
         if 'driver_error' in model:
             return 'driver: ' + model['driver_error']
+        if case.get('k') == 'selection':
+            lo, hi = unbits(model['low']), unbits(model['high'])
+            for j, (got, want, st) in enumerate(zip(impl['mask'], model['mask'], impl['stats'])):
+                near = min(abs(st[2] - impl['nl'] * st[3] - lo), abs(hi - st[2] - impl['nh'] * st[3])) < 1e-6 * (impl['s1'] - impl['s0'])
+                if got != want and not near:
+                    return 'selection of subpopulation %d: implementation %s, model %s (thresholds %r, %r)' % (j, got, want, lo, hi)
+            return None
         if model['rfi'] != impl['inj']['rfi'][0] or model['mef'] != impl['inj']['mef'][0]:
             return 'model selectPairs %s / %s vs implementation %s / %s' % (model['rfi'], model['mef'], impl['inj']['rfi'][0], impl['inj']['mef'][0])
         return None
@@ -388,5 +470,7 @@ class Prop(common.PropertyCheck):
         return []
 
     def nontrivial_key(self, case, impl):
+        if case.get('k') == 'selection':
+            return ('selection', case['npop'], case['range'], tuple(impl.get('mask', [])))
         prof = 'equal' if len(set(case['sizes'])) == 1 else ('mild' if max(case['sizes']) < 1.4 * min(case['sizes']) else 'unequal')
         return (case['K'], case['nch'], case['blank'], case['saturate'], tuple(map(tuple, case['unknown'])), prof, case['stat'], case['clust'])
